@@ -28,7 +28,8 @@ FakeRes(f, eb, q) ==
 
 QExp(f, eb, q) ==
     LET o == QOut(f, eb, q, FALSE)
-    IN IF o # "ok" THEN [out |-> o]
+    IN IF Unjudged(f, eb, q) THEN [x \in {} |-> 0]            \* several sections of one kind: no property fixes the answer
+       ELSE IF o # "ok" THEN [out |-> o]
        ELSE LET e == q @@ [res |-> FakeRes(f, eb, q)]
                 d == QDet(f, eb, e, FALSE)
             IN IF q.name = "find_common_data"
